@@ -28,7 +28,8 @@ import numpy as np
 
 from ..contracts import attach, detach_all, quiet
 from ..polyhard import (cfg32, clear_caches, warm32, layouts, is_c_contig, contig, order_containers, foreign_traffic, high_orders, seq_coord_kind_ok, coord_forms,
-                        form_class, more_order_containers, term_containers, ORDER_FORMS, NM_FORMS, N_ONLY_FORMS, PARAM_FORMS, INT_PARAM_FORMS, INT_HERMITE_MAX_ORDER)
+                        form_class, more_order_containers, term_containers, ORDER_FORMS, NM_FORMS, N_ONLY_FORMS, PARAM_FORMS, INT_PARAM_FORMS, INT_HERMITE_MAX_ORDER,
+                        scales, ulps, special_class, near_special_jacobi, near_special_scalar, EXACT_SPECIAL_JACOBI, GENERIC_NEIGHBOURS_JACOBI, term_orderings)
 from ..refmodels import poly_exact as E
 from ..util import precision
 
@@ -66,7 +67,14 @@ RULE = ('families x parameter classes (Chebyshev half-integers, Legendre, (0,4),
         'every accepted container, shape parameters as numpy float64 / float32 / python int / numpy int64 incl. the lines alpha + beta = -1, 0 with alpha != beta, '
         'norm / cartesian_grid omitted vs explicit (also after the other explicit value, positional vs keyword); class F - every family judged after unmonitored '
         'traffic through the shared recurrence tables from the derivative / Clenshaw / change-of-basis / fit routines (precision 32, numpy-typed orders, ndarray '
-        'coefficients)')
+        'coefficients). Hardening pass 3: class H - shape parameters that are special only UP TO ROUNDING (alpha = 0.1 + 0.2, beta = -0.3; alpha = 1/3, beta = -(1 - 2/3); alpha + beta = -1 +- 1 ulp; '
+        'a parameter one ulp from 0, +-1/2, an integer; alpha -> -1; thorough: every +-1..3 ulp neighbour of eight special pairs), the exactly special ones (alpha or beta exactly 0, -1/2, 1/2; '
+        'alpha + beta exactly 0 / -1 with alpha != beta) and clearly generic neighbours for jacobi, laguerre, dickson1/2, single-order and sequence form, judged against the definition at the EXACT '
+        'RATIONAL VALUE of the floats; evaluation points exactly at 0, -0.0, +-1, the ends of each domain and one ulp inside them as arrays / 0-d / length-1 / python floats, order lists containing '
+        'only order 0, the two-index families on the axis (r = 0, |m| = 0, 1, 2) and on the rim, angles at exact multiples of pi/2, monomials with zero base and zero exponent, Hopkins terms at '
+        'r = 0 / H = 0; class G - x^m y^n and cos(a t) r^b H^c with the coordinates scaled by 1e-12 ... 1e12 (both, one of them), judged against the exact definition RELATIVE to the size of the '
+        'reference (no absolute floor); class I - every ordering of the two-index term lists (ascending, descending, grouped by |m| with n ascending / descending, m-major, sine terms first, radial '
+        'orders non-ascending inside each |m| group with the groups interleaved, shuffles, ALL permutations of three-term same-|m| groups incl. mixed signs, list or (k, 2) ndarray)')
 ASSUMPTIONS = ['textbook definitions as written in vp/refmodels/poly_exact.py (Szego 4.3.2 Jacobi sum; Mason-Handscomb '
                'numbering of the 3rd/4th-kind Chebyshev polynomials; Dickson D_0 = 2; Zernike norm sqrt(2(n+1)/(1+delta_m0)))',
                'Qbfs / 2D-Q are defined by: degree n in u^2, positive at the origin, orthonormal gradients under '
@@ -89,6 +97,10 @@ ASSUMPTIONS = ['textbook definitions as written in vp/refmodels/poly_exact.py (S
                'a complex point is judged against the analytic continuation of the definition (exact Gaussian-rational arithmetic); float32-typed shape parameters and complex64 '
                'coordinates are the single-precision class (orders <= 12); integer-typed coordinates of the integer-arithmetic families (Hermite, Dickson) are judged while the value fits a quarter of the range of the coordinate dtype (the recurrence is evaluated modulo 2^bits)',
                'a reference value (or its two lower-order neighbours) beyond 1e290 is beyond the family\'s numerically meaningful limit: excluded and counted',
+               'parameters special only up to rounding are IN domain (alpha, beta > -1): the polynomial is smooth (polynomial) in its parameters, so the definition at the exact rational value of the '
+               'floats is the reference at the ordinary tolerance; only the corner alpha + beta + 2 < 2^-20 (BOTH parameters within 1e-6 of -1, where h_1 has a pole and the three-term recurrence '
+               'divides by alpha + beta + 2) is beyond the numerically meaningful limit: excluded and counted (observed on /repo @ c2c1d7f: jacobi(2, -1 + 2 ulp, -1 + 1 ulp, -1) = 0.22 instead of 5.6e-17)',
+               'the magnitude regimes of class G are judged by workload monitors relative to sup |reference|; the contracts keep their absolute floor of 1',
                'xy_seq with cartesian_grid=True and 0-D/1-D coordinates is excluded and counted (grid-axes vs point-list reading is the '
                'open C08 ledger entry), cartesian 2-D grids are read as documented: arr[y, x], first row / first column']
 REQUIRED = ['value.jacobi', 'value.legendre', 'value.cheby1', 'value.cheby2', 'value.cheby3', 'value.cheby4',
@@ -99,7 +111,8 @@ REQUIRED = ['value.jacobi', 'value.legendre', 'value.cheby1', 'value.cheby2', 'v
             'value.hermite_He_seq', 'value.hermite_H_seq', 'value.laguerre_seq', 'value.dickson1_seq', 'value.dickson2_seq',
             'value.Qbfs_seq', 'value.Qcon_seq', 'value.zernike_nm_seq.norm', 'value.zernike_nm_seq.nonorm', 'value.Q2d_seq', 'value.xy_seq',
             'alias.result-stable', 'alias.jacobi', 'alias.Qbfs', 'alias.Qcon', 'alias.zernike', 'alias.q2d',
-            'classD.very-high-orders', 'classE.argument-forms', 'classF.foreign-traffic']
+            'classD.very-high-orders', 'classE.argument-forms', 'classF.foreign-traffic',
+            'classG.scale-laws', 'classH.special-parameters', 'classH.special-points', 'classI.orderings']
 
 CTX = None
 WORST = {}          # monitor -> worst err/tol seen (reported as a note: distance to the threshold)
@@ -132,7 +145,27 @@ def jac_pclass(a, b):
         return 'a+b=0'
     if a + b == -1:
         return 'a+b=-1'
+    sp = special_class((a, b))
+    if sp is not None:
+        return 'special:' + sp[0]          # special only up to rounding (HARDENING3 class H): within 2^-26 of a special line, not on it
     return 'general'
+
+
+DEGENERATE_SKIP = ('jacobi: alpha + beta + 2 < 2^-20 (both parameters within 1e-6 of -1: the corner of the parameter domain where the family degenerates - h_1 has a pole - and the '
+                   'three-term recurrence divides by alpha + beta + 2; beyond the numerically meaningful limit)')
+
+
+def degenerate_corner(params):
+    try:
+        return float(params[0]) + float(params[1]) + 2.0 < 2.0 ** -20
+    except (TypeError, ValueError):
+        return False
+
+
+def scalar_pclass(params):
+    """Key label of ONE shape parameter (Laguerre, Dickson) that is special only up to rounding, else ''."""
+    sp = special_class(tuple(float(v) for v in params)) if len(params) == 1 else None
+    return ('special:' + sp[0]) if sp is not None else ''
 
 
 def xclass(x):
@@ -273,6 +306,9 @@ def post_1d(fam):
             return
         desc = {'fn': fam, 'n': n, 'params': [float(v) for v in params], 'x': xclass(x), 'shape': list(np.shape(x)),
                 'dtype': str(getattr(x, 'dtype', type(x).__name__))}
+        if fam == 'jacobi' and degenerate_corner(params):
+            CTX.skip(DEGENERATE_SKIP)
+            return
         xkind = np.asarray(x).dtype.kind
         if xkind not in 'fcib':
             CTX.skip(f'{fam}: coordinate dtype kind outside the accepted forms (unsigned integers wrap in x - 1; class E table of vp/polyhard.py)')
@@ -330,7 +366,7 @@ def post_1d(fam):
             def recheck(tr):
                 out = np.asarray(ORIG[fam](a['n'], *params, x if tr is None else tr(x)))
                 return out.shape == np.shape(x) and row_err(out.ravel()[use].astype(numtype(out, ref)), ref) <= tol
-            pc = jac_pclass(*[float(v) for v in params]) if fam == 'jacobi' else ''
+            pc = jac_pclass(*[float(v) for v in params]) if fam == 'jacobi' else scalar_pclass(params)
             def retyped():
                 out = np.asarray(ORIG[fam](n, *[float(v) for v in params], x))
                 return out.shape == np.shape(x) and row_err(out.ravel()[use].astype(numtype(out, ref)), ref) <= tol
@@ -644,6 +680,9 @@ def post_seq_1d(fn):
             return
         int_limit = 2.0 ** (8 * x.dtype.itemsize - 2) if (x.dtype.kind in 'ib' and fam in INT_ARITHMETIC_FAMS) else None
         params = tuple(a[k] for k in names[1:-1])
+        if fam == 'jacobi' and degenerate_corner(params):
+            CTX.skip(DEGENERATE_SKIP)
+            return
         k = len(ns)
         desc = {'fn': fn, 'ns': short(ns), 'params': [float(v) for v in params], 'x': xclass(x), 'shape': list(x.shape),
                 'dtype': str(x.dtype), 'list': list_label(ns)}
@@ -751,7 +790,7 @@ def post_seq_1d(fn):
         if label is None and min(bad) >= 171:
             label = 'orders>=171'          # every failing row is an order at / beyond 171 (where n! leaves double precision)
         if label is None:
-            pc = jac_pclass(*[float(v) for v in params]) if fam == 'jacobi' else ''
+            pc = jac_pclass(*[float(v) for v in params]) if fam == 'jacobi' else scalar_pclass(params)
             key = '/'.join(s for s in ['C07', fn, 'value', pc, nclass(b), 'f32' if f32 else ''] if s)
             what = f'{fn}: the row of a requested order differs from the closed-form definition of that order (for the dense list 0..max too)'
         else:
@@ -2447,6 +2486,288 @@ def foreign_unit(ctx, P, rng, rep):
         seq_call(ctx, fn, desc, lambda: getattr(P, fn)(lst, r, t, **kw), None, [('term', lambda e=e: ORIG[fn]([e], r, t, **kw)) for e in lst])
 
 
+# ------------------------------------------------------------------------------------------ hardening pass 3 (HARDENING3.md G, H, I)
+H_POINTS = {   # evaluation points exactly at 0, +-1, the ends of the family's domain and one ulp inside them
+    'jacobi-like': [-1.0, 1.0, 0.0, -0.0, ulps(-1.0, 1), ulps(1.0, -1), 0.5, -0.28125],
+    'hermite': [0.0, -0.0, 1.0, -1.0, 3.0, -3.0, 0.5],
+    'laguerre': [0.0, 1.0, ulps(0.0, 1), 10.0, 0.5],
+    'dickson': [0.0, -0.0, 1.0, -1.0, 2.0, -2.0, 0.5],
+    'unit': [0.0, 1.0, ulps(1.0, -1), 2.0 ** -30, 0.5, 0.28125],
+}
+
+
+def h_points(fam):
+    if fam.startswith('hermite'):
+        return H_POINTS['hermite']
+    if fam == 'laguerre':
+        return H_POINTS['laguerre']
+    if fam.startswith('dickson'):
+        return H_POINTS['dickson']
+    if fam in ('Qbfs', 'Qcon'):
+        return H_POINTS['unit']
+    return H_POINTS['jacobi-like']
+
+
+def special_parameter_unit(ctx, P, part, nparts):
+    """Class H, parameters that are special only UP TO ROUNDING (alpha = 0.1 + 0.2, beta = -0.3; alpha + beta = -1 +- 1 ulp; a parameter one ulp from 0, +-1/2, an
+    integer; alpha -> -1), the exactly special ones (alpha or beta exactly 0, -1/2, 1/2; alpha + beta exactly 0 / -1 with alpha != beta) and clearly generic neighbours,
+    for every family that takes shape parameters, single-order and sequence form, at points that include 0 and both ends of the domain.  The contracts judge each call
+    against the exact definition evaluated at the EXACT RATIONAL VALUE of the floats that were passed (the function is smooth in its parameters: nothing is lost to
+    conditioning, so the ordinary tolerance applies)."""
+    x = np.array([-1.0, -0.4375, 0.0, 0.28125, 1.0])
+    cases = [('special:' + c, ab) for c, ab, nb in near_special_jacobi(not ctx.quick)] + [('exactly-special', ab) for ab in EXACT_SPECIAL_JACOBI] + \
+            [('generic-neighbour', ab) for ab in GENERIC_NEIGHBOURS_JACOBI]
+    orders = ctx.pick((0, 1, 2, 3, 4, 5, 8, 12), tuple(range(13)) + (19, 25))
+    for i, (cls, ab) in enumerate(cases):
+        if i % nparts != part:
+            continue
+        tiny = any(0 < abs(v) < 1e-200 for v in ab)          # denormal parameters: the exact model stays cheap for moderate orders
+        for n in orders:
+            if tiny and n > 8:
+                continue
+            desc = {'wl': 'special-parameters', 'fn': 'jacobi', 'params': [repr(v) for v in ab], 'n': n, 'pclass': cls, 'class': f'jacobi:{cls}'}
+            ctx.case(desc, nontrivial=n >= 1)
+            ctx.observe('classH.special-parameters')
+            with ctx.guard(f'C07/jacobi/{cls}', desc):
+                P.jacobi(n, ab[0], ab[1], x if n % 3 else x[1:4].reshape(1, 3))
+        for ns in ([0, 1, 2, 3], [1], [2, 5], [6], [0], [0, 1, 2, 3, 4, 5, 6, 7, 8], [3, 8, 12]):
+            if tiny and ns[-1] > 8:
+                continue
+            desc = {'wl': 'special-parameters', 'fn': 'jacobi_seq', 'params': [repr(v) for v in ab], 'ns': ns, 'pclass': cls, 'class': f'jacobi_seq:{cls}'}
+            ctx.case(desc, nontrivial=ns[-1] >= 1)
+            seq_call(ctx, 'jacobi_seq', desc, lambda: P.jacobi_seq(ns, ab[0], ab[1], x), None, [(nclass(v), lambda v=v: ORIG['jacobi_seq']([v], ab[0], ab[1], x)) for v in ns])
+    table = [('laguerre', near_special_scalar([0.0, 0.5, -0.5, 1.0, 2.0], lower=-1.0, thorough=not ctx.quick), [0.0, 0.5, -0.5, 1.0]),
+             ('dickson1', near_special_scalar([0.0, 1.0, -1.0, 0.5], thorough=not ctx.quick), [0.0, 1.0, -1.0, 0.5, -0.5]),
+             ('dickson2', near_special_scalar([0.0, 1.0, -1.0, 0.5], thorough=not ctx.quick), [0.0, 1.0, -1.0, 0.5, -0.5])]
+    i = -1
+    for fam, near, exact_ in table:
+        lo, hi = dom01(fam)
+        xx = np.array([lo, lo + (hi - lo) * 0.28125, 0.0 if lo < 0 else lo + (hi - lo) * 0.5, hi])
+        for cls, a in [('special:alpha~k/2', v) for c, v, sp in near] + [('exactly-special', v) for v in exact_]:
+            i += 1
+            if i % nparts != part:
+                continue
+            tiny = 0 < abs(a) < 1e-200
+            for n in orders:
+                if n > (8 if tiny else 12):
+                    continue
+                desc = {'wl': 'special-parameters', 'fn': fam, 'params': [repr(a)], 'n': n, 'pclass': cls, 'class': f'{fam}:{cls}'}
+                ctx.case(desc, nontrivial=n >= 1)
+                ctx.observe('classH.special-parameters')
+                with ctx.guard(f'C07/{fam}/{cls}', desc):
+                    getattr(P, fam)(n, a, xx)
+            for ns in ([0, 1, 2, 3], [1], [2, 5], [0], [0, 1, 2, 3, 4, 5, 6, 7, 8]):
+                desc = {'wl': 'special-parameters', 'fn': fam + '_seq', 'params': [repr(a)], 'ns': ns, 'pclass': cls, 'class': f'{fam}_seq:{cls}'}
+                ctx.case(desc, nontrivial=ns[-1] >= 1)
+                seq_call(ctx, fam + '_seq', desc, lambda: getattr(P, fam + '_seq')(ns, a, xx), None, [(nclass(v), lambda v=v: ORIG[fam + '_seq']([v], a, xx)) for v in ns])
+
+
+def special_points_unit(ctx, P, rng):
+    """Class H, evaluation points exactly at 0 / -0.0 / +-1 / the ends of each family's domain and one ulp inside them: as arrays (all points; each point alone as a
+    length-1 array and 0-d array) and - single-order form - as python floats; order lists containing only order 0; the two-index families on the axis (r = 0 with
+    |m| = 0, 1, 2) and on the rim (r = 1); monomials with a zero base and a zero exponent (0^0 = 1); Hopkins terms at r = 0 / H = 0; angles at exact multiples of pi/2."""
+    for fam, params in ALIAS_FAMS + [('jacobi', (0.0, 0.5)), ('jacobi', (-0.5, 0.0)), ('laguerre', (0.0,)), ('dickson1', (0.0,)), ('dickson2', (1.0,))]:
+        pts = h_points(fam)
+        f, fs = getattr(P, fam), getattr(P, fam + '_seq')
+        xa = np.array(pts)
+        cheap = [v for v in pts if v == 0 or abs(v) > 1e-300]
+        for n in ctx.pick((0, 1, 2, 3, 4, 7, 12, 19, 41), tuple(range(13)) + (19, 25, 41, 60)):
+            if fam in ('hermite_He', 'hermite_H', 'laguerre', 'dickson1', 'dickson2') and n > 40:
+                continue
+            xs = xa if n <= 12 else np.array(cheap)
+            desc = {'wl': 'special-points', 'fn': fam, 'params': list(params), 'n': n, 'x': 'array-of-special-points', 'class': f'{fam}:special-points:array'}
+            ctx.case(desc, nontrivial=n >= 1)
+            ctx.observe('classH.special-points')
+            with ctx.guard(f'C07/{fam}/special-points', desc):
+                f(n, *params, xs)
+            if n <= 7:
+                for v in pts:
+                    for form, xv in (('pyfloat', float(v)), ('0d', np.array(float(v))), ('len1', np.array([float(v)]))):
+                        desc = {'wl': 'special-points', 'fn': fam, 'params': list(params), 'n': n, 'x': repr(v), 'x_as': form, 'class': f'{fam}:special-points:{form}'}
+                        ctx.case(desc, nontrivial=n >= 1)
+                        with ctx.guard(f'C07/{fam}/special-points', desc):
+                            f(n, *params, xv)
+        for ns in ([0], [0, 1], [1], [0, 1, 2, 3], [2, 5, 12], [0, 7]):
+            for form, xv in (('array', xa), ('len1:first', xa[:1]), ('0d:first', np.array(pts[0])), ('len1:zero', np.array([0.0])), ('2d', xa[:4].reshape(2, 2))):
+                desc = {'wl': 'special-points', 'fn': fam + '_seq', 'params': list(params), 'ns': ns, 'x_as': form, 'class': f'{fam}_seq:special-points:{form}'}
+                ctx.case(desc, nontrivial=ns[-1] >= 1)
+                seq_call(ctx, fam + '_seq', desc, lambda: fs(ns, *params, xv), None, [(nclass(v), lambda v=v: ORIG[fam + '_seq']([v], *params, xv)) for v in ns])
+    # two-index families: on the axis, on the rim, angles at exact multiples of pi/2
+    r = np.array([0.0, 0.0, 0.0, 1.0, 1.0, ulps(1.0, -1), 2.0 ** -30, 0.5])
+    t = np.array([0.0, np.pi / 2, 1.25, 0.0, np.pi, 3 * np.pi / 2, 2 * np.pi, -np.pi / 2])
+    znm = [(n, m) for n in range(0, ctx.pick(8, 13)) for m in range(-n, n + 1, 2) if abs(m) <= 3] + [(19, 1), (19, -1), (20, 0), (41, 1), (40, 2)]
+    for n, m in znm:
+        for norm in (True, False):
+            desc = {'wl': 'special-points', 'fn': 'zernike_nm', 'n': n, 'm': m, 'norm': norm, 'class': f'zernike_nm:special-points:{zmclass(m)}'}
+            ctx.case(desc, nontrivial=n >= 1)
+            ctx.observe('classH.special-points')
+            with ctx.guard('C07/zernike_nm/special-points', desc):
+                P.zernike_nm(n, m, r, t, norm=norm)
+                if n <= 5:
+                    P.zernike_nm(n, m, 0.0, 1.25, norm=norm)
+                    P.zernike_nm(n, m, np.array(0.0), np.array(0.5), norm=norm)
+                    P.zernike_nm(n, m, np.array([0.0]), np.array([2.0]), norm=norm)
+                    P.zernike_nm(n, m, 1.0, 0.0, norm=norm)
+    qnm = [(n, m) for n in range(0, ctx.pick(5, 9)) for m in range(-3, 4)] + [(19, 1), (19, -1), (18, 0), (12, 2)]
+    for n, m in qnm:
+        desc = {'wl': 'special-points', 'fn': 'Q2d', 'n': n, 'm': m, 'class': f'Q2d:special-points:{q2d_mclass(m)}'}
+        ctx.case(desc)
+        with ctx.guard('C07/Q2d/special-points', desc):
+            P.Q2d(n, m, r, t)
+            if n <= 3:
+                P.Q2d(n, m, 0.0, 1.25)
+                P.Q2d(n, m, np.array(0.0), np.array(0.5))
+                P.Q2d(n, m, np.array([0.0]), np.array([2.0]))
+                P.Q2d(n, m, 1.0, 0.0)
+    for fn, lst, kws in (('zernike_nm_seq', [(0, 0)], [{}, {'norm': False}]), ('zernike_nm_seq', [(0, 0), (0, 0)], [{}]), ('zernike_nm_seq', [(1, 1), (1, -1), (3, 1), (3, -1), (2, 0), (5, 1)], [{}, {'norm': False}]),
+                     ('zernike_nm_seq', znm[:20], [{}]), ('Q2d_seq', [(0, 0)], [{}]), ('Q2d_seq', [(0, 1), (0, -1), (1, 1), (2, -1), (0, 0), (3, 1)], [{}]), ('Q2d_seq', qnm[:21], [{}])):
+        for kw in kws:
+            for form, rv, tv in (('array', r, t), ('len1:axis', r[:1], t[2:3]), ('0d:axis', np.array(0.0), np.array(1.25)), ('2d', r.reshape(2, 4), t.reshape(2, 4))):
+                desc = {'wl': 'special-points', 'fn': fn, 'terms': short(lst), 'opt': str(kw), 'x_as': form, 'class': f'{fn}:special-points:{form}'}
+                ctx.case(desc, nontrivial=max(a for a, b in lst) >= 1)
+                seq_call(ctx, fn, desc, lambda: getattr(P, fn)(lst, rv, tv, **kw), None, [('term', lambda e=e: ORIG[fn]([e], rv, tv, **kw)) for e in lst[:12]])
+    # monomials: zero base, zero exponent; Hopkins: r = 0 / H = 0 with b = 0 / c = 0
+    x0 = np.array([0.0, 0.0, 1.0, -1.0, 0.5, -0.0])
+    y0 = np.array([0.0, 0.75, 0.0, -1.0, 0.0, 1.0])
+    X0, Y0 = np.meshgrid(np.array([0.0, -1.0, 1.0, 0.5]), np.array([0.0, 1.0, -0.25]))
+    exps = [(m, n) for m in range(0, 4) for n in range(0, 4)] + [(7, 0), (0, 7), (12, 1)]
+    for m, n in exps:
+        desc = {'wl': 'special-points', 'fn': 'xy', 'm': m, 'n': n, 'class': 'xy:special-points'}
+        ctx.case(desc, nontrivial=m + n >= 1)
+        with ctx.guard('C07/xy/special-points', desc):
+            P.xy(m, n, x0, y0, cartesian_grid=False)
+            P.xy(m, n, X0, Y0)
+            P.xy(m, n, np.array(0.0), np.array(0.0), cartesian_grid=False)
+            P.xy(m, n, 0.0, 1.0, cartesian_grid=False)
+    for lst in ([(0, 0)], exps, exps[::-1], [(0, 3), (3, 0), (0, 0), (1, 1)]):
+        desc = {'wl': 'special-points', 'fn': 'xy_seq', 'mns': short(lst), 'class': 'xy_seq:special-points'}
+        ctx.case(desc)
+        seq_call(ctx, 'xy_seq', desc, lambda: P.xy_seq(lst, x0, y0, cartesian_grid=False), None, [('general', lambda e=e: ORIG['xy_seq']([e], x0, y0, cartesian_grid=False)) for e in lst[:12]])
+        seq_call(ctx, 'xy_seq', desc, lambda: P.xy_seq(lst, X0, Y0), None, [('cartesian', lambda e=e: ORIG['xy_seq']([e], X0, Y0)) for e in lst[:12]])
+    rh = np.array([0.0, 0.0, 1.0, 0.5, 0.0, 1.0])
+    Hh = np.array([0.0, 1.0, 0.0, 0.0, 0.5, 1.0])
+    th = np.array([0.0, np.pi / 2, np.pi, 1.25, 2 * np.pi, -np.pi / 2])
+    for a in (-3, -1, 0, 1, 2):
+        for b in (0, 1, 2, 5):
+            for c in (0, 1, 3):
+                desc = {'wl': 'special-points', 'fn': 'hopkins', 'a': a, 'b': b, 'c': c, 'class': 'hopkins:special-points'}
+                ctx.case(desc, nontrivial=abs(a) + b + c >= 1)
+                with ctx.guard('C07/hopkins/special-points', desc):
+                    P.hopkins(a, b, c, rh, th, Hh)
+                    P.hopkins(a, b, c, 0.0, 0.0, 0.0)
+                    P.hopkins(a, b, c, np.array(0.0), np.array(1.25), np.array(1.0))
+
+
+def rel_judge(ctx, mon, got, ref, key, what, desc, rtol=1e-10):
+    """Relative comparison (scale = sup |reference|, NO absolute floor): the magnitude regimes of class G are invisible to a tolerance floored at 1."""
+    ref = np.asarray(ref)
+    sc = float(np.max(np.abs(ref))) if ref.size else 0.0
+    return ctx.close(mon, np.asarray(got), ref, key, what, desc, rtol=rtol, atol=1e-300, scale=sc)
+
+
+def scale_unit(ctx, P, rng):
+    """Class G for the routines whose definition is homogeneous in the coordinates: x^m y^n (degree m in x, n in y) and cos(a t) r^b H^c (degree b in r, c in H) with
+    the coordinates scaled by 1e-12 ... 1e12, judged against the exact definition at the very points passed, RELATIVE to the size of the reference (the contracts'
+    tolerance has an absolute floor of 1 and cannot see a tiny regime), while the result stays inside the double range."""
+    x0 = np.array([0.75, -0.4375, 0.15625, -1.0, 0.0, 0.59375])
+    y0 = np.array([-0.3125, 0.875, 1.0, 0.21875, 0.65625, 0.0])
+    xg, yg = np.array([0.75, -0.4375, 0.15625, 1.0]), np.array([-0.3125, 0.875, 0.46875])
+    exps = [(0, 0), (1, 0), (0, 1), (2, 3), (3, 0), (1, 4), (5, 5), (0, 7), (8, 2)] + ctx.pick([], [(12, 0), (3, 9), (1, 1), (6, 6)])
+    for s in scales(ctx.quick) + (1.0,):
+        reg = 'tiny' if s < 1 else ('huge' if s > 1 else 'unit')
+        for sx, sy, lab in ((s, s, 'both'), (s, 1.0, 'x-only'), (1.0, s, 'y-only')):
+            if s == 1.0 and lab != 'both':
+                continue
+            ok = [(m, n) for m, n in exps if abs(m * math.log10(sx) + n * math.log10(sy)) <= 250]
+            X, Y = np.meshgrid(sx * xg, sy * yg)
+            for m, n in ok:
+                desc = {'wl': 'scale', 'fn': 'xy', 'm': m, 'n': n, 'scale': s, 'scaled': lab, 'class': f'xy:scale:{reg}:{lab}'}
+                ctx.case(desc, nontrivial=m + n >= 1)
+                with ctx.guard(f'C07/xy/scale:{reg}', desc):
+                    xs, ys = sx * x0, sy * y0
+                    ref = np.array([E.to_number(E.monomial_xy(m, n, a, b)) for a, b in zip(xs, ys)])
+                    rel_judge(ctx, 'classG.scale-laws', P.xy(m, n, xs, ys, cartesian_grid=False), ref, f'C07/xy/scale:{reg}', 'xy(m, n, s x, s y) is not (s x)^m (s y)^n relative to its own size', desc)
+                    refg = np.array([[E.to_number(E.monomial_xy(m, n, a, b)) for a in X[0]] for b in Y[:, 0]])
+                    rel_judge(ctx, 'classG.scale-laws', P.xy(m, n, X, Y), refg, f'C07/xy/scale:{reg}', 'xy(m, n, X, Y) on a scaled cartesian grid is not X^m Y^n relative to its own size', desc)
+            desc = {'wl': 'scale', 'fn': 'xy_seq', 'mns': short(ok), 'scale': s, 'scaled': lab, 'class': f'xy_seq:scale:{reg}:{lab}'}
+            ctx.case(desc)
+            with ctx.guard(f'C07/xy_seq/scale:{reg}', desc):
+                xs, ys = sx * x0, sy * y0
+                for form, modes, pts in (('general', P.xy_seq(ok, xs, ys, cartesian_grid=False), None), ('cartesian', P.xy_seq(ok, X, Y), True)):
+                    for (m, n), mode in zip(ok, modes):
+                        ref = np.array([E.to_number(E.monomial_xy(m, n, a, b)) for a, b in zip(xs, ys)]) if pts is None else \
+                            np.array([[E.to_number(E.monomial_xy(m, n, a, b)) for a in X[0]] for b in Y[:, 0]])
+                        rel_judge(ctx, 'classG.scale-laws', mode, ref, f'C07/xy_seq/scale:{reg}', 'a mode of xy_seq at scaled coordinates is not x^m y^n relative to its own size', dict(desc, term=[m, n], grid=form))
+        r0 = np.array([0.75, 0.4375, 0.15625, 1.0, 0.59375])
+        H0 = np.array([0.3125, 0.875, 1.0, 0.21875, 0.65625])
+        t0 = np.array([0.5, 1.75, 3.0, 5.5, 0.0])
+        for sr, sh, lab in ((s, s, 'both'), (s, 1.0, 'r-only'), (1.0, s, 'H-only')):
+            if s == 1.0 and lab != 'both':
+                continue
+            for a, b, c in ((0, 0, 0), (1, 1, 0), (-1, 1, 1), (2, 3, 1), (0, 2, 2), (-3, 5, 0), (4, 0, 6), (1, 7, 3)):
+                if abs(b * math.log10(sr) + c * math.log10(sh)) > 250:
+                    continue
+                desc = {'wl': 'scale', 'fn': 'hopkins', 'a': a, 'b': b, 'c': c, 'scale': s, 'scaled': lab, 'class': f'hopkins:scale:{reg}:{lab}'}
+                ctx.case(desc, nontrivial=abs(a) + b + c >= 1)
+                with ctx.guard(f'C07/hopkins/scale:{reg}', desc):
+                    rr, hh = sr * r0, sh * H0
+                    ref = np.array([float(E.hopkins_radial(b, c, u, v)) * _trig(a, float(w)) for u, v, w in zip(rr, hh, t0)])
+                    rel_judge(ctx, 'classG.scale-laws', P.hopkins(a, b, c, rr, t0, hh), ref, f'C07/hopkins/scale:{reg}', 'hopkins(a, b, c, s r, t, s H) is not cos(a t) (s r)^b (s H)^c relative to its own size', desc)
+
+
+def ordering_unit(ctx, P, rng, part, nparts):
+    """Class I, every ordering of a two-index term list: ascending, descending, grouped by |m| (n ascending / descending), m-major, sine terms first, the radial
+    orders NON-ascending inside each |m| group with the groups interleaved, shuffles - for the full low-order sets - and ALL permutations of small same-|m| groups
+    (three radial orders, both signs).  The contracts judge every row against the definition of the term requested at that position."""
+    import itertools
+    zset = [(n, m) for n in range(ctx.pick(6, 9)) for m in range(-n, n + 1, 2)]
+    qset = [(n, m) for n in range(ctx.pick(4, 6)) for m in range(-3, 4)]
+    xset = [(a, b) for a in range(4) for b in range(4)]
+    r = np.concatenate([[0.0, 1.0], dyadic(rng, 0, 1, (3,), den=32)])
+    t = rng.uniform(0, 2 * np.pi, 5)
+    xv, yv = dyadic(rng, -1, 1, (5,), den=16), dyadic(rng, -1, 1, (5,), den=16)
+    jobs = []
+    for lab, o in term_orderings(zset, rng, ctx.pick(2, 8)):
+        jobs += [('zernike_nm_seq', lab, o, {'norm': True}), ('zernike_nm_seq', lab, o, {'norm': False})]
+    for lab, o in term_orderings(qset, rng, ctx.pick(2, 8)):
+        jobs.append(('Q2d_seq', lab, o, {}))
+    for lab, o in term_orderings(xset, rng, ctx.pick(2, 8)):
+        jobs.append(('xy_seq', lab, o, {'cartesian_grid': False}))
+    for am in (0, 1, 2, 3):
+        grp = [(am + 2 * j, am) for j in range(3)]
+        for perm in itertools.permutations(grp):
+            jobs.append(('zernike_nm_seq', 'permutation-of-one-|m|-group', list(perm), {'norm': bool(am % 2)}))
+            if am:
+                mixed = [(n, m if i % 2 else -m) for i, (n, m) in enumerate(perm)] + [(perm[0][0], -am)]
+                jobs.append(('zernike_nm_seq', 'permutation-of-one-|m|-group-mixed-signs', mixed, {'norm': not am % 2}))
+        grp = [(j, am) for j in (0, 1, 3)]
+        for perm in itertools.permutations(grp):
+            jobs.append(('Q2d_seq', 'permutation-of-one-|m|-group', list(perm), {}))
+            if am:
+                jobs.append(('Q2d_seq', 'permutation-of-one-|m|-group-mixed-signs', [(n, m if i % 2 else -m) for i, (n, m) in enumerate(perm)] + [(perm[0][0], -am)], {}))
+    for i, (fn, lab, lst, kw) in enumerate(jobs):
+        if i % nparts != part:
+            continue
+        c0, c1 = (xv, yv) if fn == 'xy_seq' else (r, t)
+        desc = {'wl': 'orderings', 'fn': fn, 'ordering': lab, 'terms': short(lst), 'opt': str(kw), 'class': f'{fn}:ordering:{lab}'}
+        ctx.case(desc)
+        ctx.observe('classI.orderings')
+        seq_call(ctx, fn, desc, lambda: getattr(P, fn)(lst if i % 3 else np.array(lst), c0, c1, **kw), None, [('term', lambda e=e: ORIG[fn]([e], c0, c1, **kw)) for e in lst[:12]])
+
+
+def pass3_units(ctx, P):
+    units = []
+    sp = ctx.pick(4, 16)
+    for part in range(sp):
+        units.append((lambda part=part: special_parameter_unit(ctx, P, part, sp), 2))
+    units.append((lambda: special_points_unit(ctx, P, ctx.rng('special-points')), 3))
+    units.append((lambda: scale_unit(ctx, P, ctx.rng('scale')), 2))
+    op = ctx.pick(2, 4)
+    for part in range(op):
+        units.append((lambda part=part: ordering_unit(ctx, P, np.random.default_rng([ctx.seed, 7107]), part, op), 1))
+    return units
+
+
 def hardening_units(ctx, P):
     """(callable, weight) units of the hardening classes; the list `last` must run after everything else on its shard."""
     units, last = [], []
@@ -2485,6 +2806,7 @@ def hardening_units(ctx, P):
     units.append((lambda: option_form_unit(ctx, P, ctx.rng('option-forms')), 1))
     for rep in range(ctx.pick(4, 8)):
         units.append((lambda rep=rep: foreign_unit(ctx, P, ctx.rng('foreign', rep), rep), 1))
+    units.extend(pass3_units(ctx, P))          # hardening pass 3: classes G, H, I
     last.append((lambda: typed_parameter_unit(ctx, P), 1))
     return units, last
 
